@@ -13,6 +13,7 @@ the public operations (+, *, take_elements, subset, zip) and compared:
 """
 
 import traceback
+import warnings
 
 import numpy
 
@@ -215,16 +216,16 @@ def exc_key(e):
         fr = tb.tb_frame
         fn = fr.f_code.co_filename
         if fn.endswith('nutils/sample.py') or fn.endswith('nutils/pointsseq.py') or fn.endswith('nutils/points.py'):
-            q = getattr(fr.f_code, 'co_qualname', fr.f_code.co_name)
+            q = getattr(fr.f_code, 'co_qualname', fr.f_code.co_name).split('.<locals>')[0]
             slf = fr.f_locals.get('self')
             where = (q, type(slf).__name__ if slf is not None else '')
         tb = tb.tb_next
     if where is None:
-        return 'raises-{}'.format(type(e).__name__)
+        return 'raises:{}'.format(type(e).__name__)
     q, cls = where
     if isinstance(e, NotImplementedError) and q in ('Sample.get_lower_args', 'Sample.get_evaluable_weights', 'Sample.get_evaluable_indices'):
         return 'unsupported:{}:element-wise-access'.format(cls)
-    return 'raises-{}:{}'.format(type(e).__name__, q)
+    return 'raises:{}'.format(q)
 
 
 def expected_rows(beh):
@@ -278,7 +279,13 @@ def close(a, b):
 
 
 def replay(beh):
-    """replay one TLC state; returns dict(fails=[(key, what, data)], structure_same=bool, unsupported=bool)"""
+    """replay one TLC state; returns dict(fails=[(key, what, data)], structure_same=bool)"""
+    with warnings.catch_warnings():
+        warnings.simplefilter('ignore')
+        return _replay(beh)
+
+
+def _replay(beh):
     out = dict(fails=[], structure_same=None, label=ops_str(beh['ops']))
     fails = out['fails']
     spaces = beh['spaces']
